@@ -90,7 +90,11 @@ def load_known():
 
 
 def matches(finding, ob):
-    if finding.get("function") and finding["function"] != ob["function"]:
+    """a known finding about a deductive obligation must name the function (and may name configuration
+    values and fragments of the obligation's detail); findings about bounded checks never match here"""
+    if finding.get("bounded") or not finding.get("function"):
+        return False
+    if finding["function"] != ob["function"]:
         return False
     for k, v in (finding.get("config") or {}).items():
         if str(ob["config"].get(k)) != str(v):
